@@ -1,6 +1,39 @@
 """C11 — iterator operators equal their sequence definitions: MC_C11.tla (IterLaws: machine = list-level
 definitions, for results and for the log of pulls / callback applications) + replay."""
+import json
+import os
 from checks._suitecheck import run_one
+from vlib import common as C
+
+
+def float_folds(chk, tier):
+    """`xs~ $+` / `xs~ $*` over floats = the documented left fold from 0.0 / 1.0 with every step rounded on its own.
+    Half-integers (Lang.tla's float domain) never round, so this is decided on recorded runs: the harness records the
+    steps of the fold (the implementation's own binary operator; IEEE result compared with the host's f64) and the
+    reduction in every execution form; Trace_Arith.tla (action FloatFold) chains the steps through its memo and accepts
+    a reduction only if every form gave the end of the chain, bit for bit."""
+    work = C.workdir("c11_folds")
+    path = os.path.join(work, "folds.ndjson")
+    _, txt = C.run_vh(["arith", "folds", path, "600" if tier == "thorough" else "120"])
+    r = json.loads(txt)
+    for m in r["mismatches"]:
+        chk.violation({"kind": "float-fold-" + m["kind"], "op": m.get("op"), "a": m.get("a"), "b": m.get("b")}, m)
+    res = C.run_tlc("Trace_Arith", "Trace_Arith.cfg", workers=1, timeout=3000, env_extra={"VERIF_IN": path}, name="trace_folds_" + tier)
+    done = res.printed("TRACE_DONE")
+    if res.printed("TRACE_STUCK") or not done or res.rc != 0 or done[0]["n"] != r["records"]:
+        raise C.ToolError("Trace_Arith did not consume the fold trace %s" % path)
+    chk.add_tlc("Trace_Arith[float folds]", res, "%d step records + %d reductions (FloatFold: every form = end of the recorded chain)"
+                % (r["steps"], r["folds"]))
+    recs = C.read_ndjson(path)
+    for m in res.printed("MISMATCH"):
+        rec = recs[m["i"] - 1]
+        chk.violation({"kind": "float-fold", "op": rec["op"], "sequence": rec.get("as")},
+                      {"direction": "impl->spec (Trace_Arith, FloatFold)", "sequence": rec.get("as"), "op": "$" + rec["op"],
+                       "specification_expects": m["expected"], "observed": rec["rs"], "programs": rec.get("programs")})
+    chk.cov["float_folds"] = {k: r[k] for k in ("sequences", "folds", "steps", "executions")}
+    chk.cov["traces_validated_against_impl_extra"] = r["records"]
+    for s in r["samples"][:1]:
+        chk.sample(s)
 
 
 def run(tier):
@@ -11,4 +44,4 @@ def run(tier):
         ["the value carried by an exhausted iterator is unspecified (docs/iterators.md) and not compared"], gen=3000,
         # every consumer (incl. `for') runs the iterator in the iterator's own scope: the `noisy-*' and `rec-iter-*'
         # cases of the scope suite (an iterator body that declares the consumer's names; a recursive named iterator)
-        claim=(("c06", ("noisy-", "rec-iter")),))
+        claim=(("c06", ("noisy-", "rec-iter")),), extra_stage=float_folds)
